@@ -257,6 +257,15 @@ func (p *c17) requiredFields(x *res, ctx *runner.Ctx) {
 		{"update-value-null-false", adapt.Op{Kind: adapt.OpUpdate, Table: spec.Name, Key: val.Item{"h": val.Str("k")}, Update: "SET a = :n", Values: val.Item{":n": val.Invalid("null-false")}}},
 		{"scan-filter-value-missing-element", adapt.Op{Kind: adapt.OpScan, Table: spec.Name, Filter: "a = :n", Values: val.Item{":n": val.List(val.Invalid("nil"))}}},
 		{"get-key-null-false", adapt.Op{Kind: adapt.OpGet, Table: spec.Name, Key: val.Item{"h": val.Invalid("null-false")}}},
+		// table names with characters beyond letters, digits, '_', '.', '-': whatever the library makes of them, both clients
+		// make the same of them - at CreateTable and for the writes that follow
+		{"create-table-name-with-blank", adapt.Op{Kind: adapt.OpCreateTable, Spec: &adapt.TableSpec{Name: "orders 2024", Hash: "h", Billing: "PAY_PER_REQUEST"}}},
+		{"create-table-name-with-colon", adapt.Op{Kind: adapt.OpCreateTable, Spec: &adapt.TableSpec{Name: "users:test", Hash: "h", Billing: "PAY_PER_REQUEST"}}},
+		{"create-table-name-non-ascii", adapt.Op{Kind: adapt.OpCreateTable, Spec: &adapt.TableSpec{Name: "caf\u00e9-orders", Hash: "h", Billing: "PAY_PER_REQUEST"}}},
+		{"create-table-name-with-slash", adapt.Op{Kind: adapt.OpCreateTable, Spec: &adapt.TableSpec{Name: "a/b/c", Hash: "h", Billing: "PAY_PER_REQUEST"}}},
+		{"create-table-name-dots-dashes", adapt.Op{Kind: adapt.OpCreateTable, Spec: &adapt.TableSpec{Name: "tbl.with-dots_ok", Hash: "h", Billing: "PAY_PER_REQUEST"}}},
+		{"create-table-name-255", adapt.Op{Kind: adapt.OpCreateTable, Spec: &adapt.TableSpec{Name: strings.Repeat("n", 255), Hash: "h", Billing: "PAY_PER_REQUEST"}}},
+		{"create-table-name-256", adapt.Op{Kind: adapt.OpCreateTable, Spec: &adapt.TableSpec{Name: strings.Repeat("n", 256), Hash: "h", Billing: "PAY_PER_REQUEST"}}},
 		{"query-unknown-index", queryOp(spec.Name, "nosuchindex", keyCondEq("h", ":h"), nil, val.Item{":h": val.Str("k")}, false, refmodel.RenderOpts{})},
 		{"scan-unknown-index", adapt.Op{Kind: adapt.OpScan, Table: spec.Name, Index: "nosuchindex"}},
 	}
@@ -267,6 +276,11 @@ func (p *c17) requiredFields(x *res, ctx *runner.Ctx) {
 		o1, o2 := c1.Do(c.op), c2.Do(c.op)
 		x.r.Evals += 2
 		x.fp(true, "required|%s", c.name)
+		if c.op.Kind == adapt.OpCreateTable && outcomeCanon(o1) == outcomeCanon(o2) {
+			// ... and the table answers a write the same way in both
+			put := adapt.Op{Kind: adapt.OpPut, Table: c.op.Spec.Name, Item: val.Item{"h": val.Str("k")}}
+			o1, o2 = c1.Do(put), c2.Do(put)
+		}
 		if outcomeCanon(o1) != outcomeCanon(o2) {
 			x.r.Counters["required_field_cases_differing"]++
 			x.viol("required-field-validation-differs", "v1="+o1.Class+"/v2="+o2.Class, fmt.Sprintf("%s: SDK v1: %s (%s) | SDK v2: %s (%s)", c.name, outcomeCanon(o1), o1.Msg, outcomeCanon(o2), o2.Msg), map[string]interface{}{"op": c.op, "v1": o1, "v2": o2})
